@@ -18,6 +18,7 @@ package colgen
 
 import (
 	"bytes"
+	"strings"
 	"encoding/binary"
 	"fmt"
 	"math/rand"
@@ -201,6 +202,38 @@ func FixedString(n int) *kindOf[[]byte] {
 		fromAbs: func(a any) []byte { return Bytes(a) },
 		gen:     genFixed(n),
 		zero:    func() any { return Ints(make([]byte, n)) },
+	}
+}
+
+// EnumText is the inferring enum column (proto.ColEnum): its values are the names, the wire carries the numbers of
+// the definition it was given by the server. The abstract value is the name's bytes; the specification gets the
+// table (names and their little-endian raw values).
+func EnumText(bits int, names []string, nums []int) *kindOf[string] {
+	var defs []string
+	nameInts, raws := []any{}, []any{}
+	for i, n := range names {
+		defs = append(defs, fmt.Sprintf("'%s' = %d", n, nums[i]))
+		nameInts = append(nameInts, Ints([]byte(n)))
+		raw := make([]byte, bits/8)
+		for j := range raw {
+			raw[j] = byte(uint64(int64(nums[i])) >> (8 * uint(j)))
+		}
+		raws = append(raws, Ints(raw))
+	}
+	tname := fmt.Sprintf("Enum%d(%s)", bits, strings.Join(defs, ", "))
+	return &kindOf[string]{
+		name: tname, ast: map[string]any{"k": "enum", "w": bits / 8, "names": nameInts, "raws": raws},
+		newCol: func() proto.ColumnOf[string] {
+			c := new(proto.ColEnum)
+			if err := c.Infer(proto.ColumnType(tname)); err != nil {
+				panic(err)
+			}
+			return c
+		},
+		toAbs:   func(v string) any { return Ints([]byte(v)) },
+		fromAbs: func(a any) string { return string(Bytes(a)) },
+		gen:     func(r *rand.Rand, _ int) any { return Ints([]byte(names[r.Intn(len(names))])) },
+		zero:    func() any { return Ints([]byte(names[0])) },
 	}
 }
 
